@@ -649,6 +649,11 @@ def b_super(I, st, args, kw, node):
     return Opaque("super", obj=st.env["self"], module=mod, cls=qn.rsplit(".", 1)[0])
 
 
+@ext("__instantiate__")
+def _instantiate_ext(module, cls):
+    return instantiate(module, cls)
+
+
 def instantiate(module, cls, frozen=False):
     """Generic constructor contract: a new object of class `cls` whose real __init__ (resolved through the base classes)
     runs inline."""
